@@ -57,7 +57,8 @@ class Interp:
         self.max_goal_size = 300
         self.findall_copy = findall_copy
         self.immediate_update = immediate_update   # second mode used only to classify C14 cases
-        self.trace = []                             # (name, arity) of every call, in order (C20 argument order)
+        self.trace = []                             # resolved goal of every call of a watched key, in order (C20)
+        self.watch = set()
         self.events = set()                         # coarse events for classification
 
     def fresh(self):
@@ -139,11 +140,8 @@ class Interp:
                 if len(row) != len(args):
                     continue
                 m = {}
-                s1 = s
-                for a, r in zip(args, row):
-                    s1 = unify(a, self.rename(r, m), s1)
-                    if s1 is None:
-                        break
+                # one joint equation (like a clause head), so that the STO check is order-independent
+                s1 = unify(goal, ('f', name, tuple(self.rename(r, m) for r in row)), s) if args else s
                 if s1 is not None:
                     yield s1
         else:
@@ -168,7 +166,7 @@ class Interp:
         else:
             raise Unspecified('non-callable goal')
         key = (name, len(args))
-        self.trace.append(key)
+        watched = key in self.watch
         # 1. dynamic facts.  Logical update view: a started enumeration visits the facts as they were at call
         #    time, including ones erased meanwhile (only retract/1 skips erased facts).
         if self.immediate_update:
@@ -188,8 +186,13 @@ class Interp:
         # 2. definitions for exactly this arity, in load order; else the variadic registration; else builtins
         if key in self.program:
             for d in list(self.program[key]):
+                if watched:
+                    # recorded when the definition is entered, i.e. after the dynamic facts (C20 call order)
+                    self.trace.append(canon(resolve(goal, s)))
                 yield from self.definition(d, goal, name, args, s, depth)
         elif name in self.variadic:
+            if name in self.watch:
+                self.trace.append(canon(resolve(goal, s)))
             yield from self.definition(self.variadic[name], goal, name, args, s, depth)
         else:
             yield from self.builtin(name, args, s, depth)
